@@ -199,6 +199,16 @@ extern "C" double *ifft_table_get_buffer(const void *tables) {
     IFFT_PRECOMP *reps = (IFFT_PRECOMP *) tables;
     return reps->aligned_data;
 }
+extern "C" void delete_fft_table(void *tables) {
+    FFT_PRECOMP *reps = (FFT_PRECOMP *) tables;
+    free(reps->buf);
+    delete reps;
+}
+extern "C" void delete_ifft_table(void *tables) {
+    IFFT_PRECOMP *reps = (IFFT_PRECOMP *) tables;
+    free(reps->buf);
+    delete reps;
+}
 
 //c has size n/2
 extern "C" void fft_model(const void *tables) {
